@@ -473,6 +473,8 @@ type GhostDecl struct {
 	Ret    string
 	Pkg    string
 	Immutable bool
+	HasRange bool // "range lo hi": every value of the ghost lies in [lo, hi)
+	Lo, Hi   int64
 }
 
 type ContractSet struct {
@@ -766,6 +768,13 @@ func (cs *ContractSet) loadContractFile(path string, pkgPath string, trusted boo
 			}
 			if len(f) > 1 && f[1] == "immutable" {
 				g.Immutable = true
+			}
+			for k := 1; k+2 < len(f); k++ {
+				if f[k] == "range" {
+					fmt.Sscanf(f[k+1], "%d", &g.Lo)
+					fmt.Sscanf(f[k+2], "%d", &g.Hi)
+					g.HasRange = true
+				}
 			}
 			cs.Ghosts[g.Name] = g
 			lastClause, lastDef, pendingSrc = nil, nil, nil
